@@ -11,9 +11,10 @@ from .. import gen
 
 PROPERTY = "C09"
 ASSUMPTIONS = [
-    "'to solver accuracy' is tested with tight SCSMFO options (qeps1=1e-12, qeps2=1e-15, eps=1e-9): with the default "
-    "truncation the result depends on listing order through the truncation error (measured up to 17%), which "
-    "converges away as the tolerances are tightened",
+    "'to solver accuracy' is tested with tight SCSMFO options (qeps1=1e-12, qeps2=1e-15, eps=1e-9, niter=400); the "
+    "iteration stops at a squared residual of 1e-9, and order dependence is judged at 1e-4 relative (measured <= 2e-7 "
+    "over 2880 clusters on the repaired tree). Up to repo commit 21bd44a the measured dependence was 1e-3..0.17 and "
+    "had been mis-attributed to truncation (tolerance 2e-2); it was the vctran defect, see known_findings.json",
     "clusters are generated inside the compiled limits (nod, notd, npd parsed from scfodim.for): x_i <= 4, k R <~ 40",
     "documented non-convergence (MultisphereFailure) is counted and must stay rare",
     "the one-sphere limit of the multi-sphere solver is checked in C02 (multisphere_one_sphere)",
@@ -21,7 +22,7 @@ ASSUMPTIONS = [
     "cluster-centred expansion the solver evaluates does not converge inside it, where order dependence is series noise",
 ]
 
-TOL_ORDER = 2e-2
+TOL_ORDER = 1e-4
 TIGHT = dict(qeps1=1e-12, qeps2=1e-15, eps=1e-9, niter=400)
 
 
@@ -296,7 +297,7 @@ SUBCHECKS = [
         "SCSMFO limits, both interaction solvers, tight options; every permutation for k<=4 (bounded-exhaustive per "
         "case), 6 random orders for k=5-6; or rotation of the whole configuration, polarization and detector points about z; "
         "non-trivial = k>=3 with a non-identity order (or a generic rotation angle)",
-        tolerances={"order_rel": 2e-2, "rotation_rel": 3e-4}, budget_quick=100),
+        tolerances={"order_rel": 1e-4, "rotation_rel": 3e-4}, budget_quick=100),
     Sub("default_theory_rule", strat_rule, run_rule, 3000, 60000,
         "scatterers of every class; Spheres with the largest pair separation placed at 30 r_max (1+delta), delta in "
         "{0, +-1e-9, +-1e-6, +-1e-3, +-0.5, uniform}, layered member, single member, missing centre; reference predicate "
